@@ -1,6 +1,6 @@
 (* C16 - property theorems only. *)
-From Coq Require Import String List.
-Require Import PV.Json PV.Workspace PV.WorkspaceRun PV.gen.FactsC16.
+From Coq Require Import String List Permutation QArith Qcanon.
+Require Import PV.Json PV.Workspace PV.WorkspaceRun PV.WorkspaceThms PV.WorkspacePrune PV.WorkspaceSort PV.WorkspaceLik PV.gen.FactsC16.
 Import ListNotations.
 
 (* tie to the source: the join names accepted by combine; modifier types are checked against the types of all (name, type) pairs *)
@@ -8,3 +8,113 @@ Lemma C16_valid_joins : map join_of_string ws_valid_joins = [Some JNone; Some JO
 Proof. reflexivity. Qed.
 Lemma C16_types_check : prune_types_via_dict = false.
 Proof. reflexivity. Qed.
+
+Theorem C16_combine_none_disjoint : forall l r v,
+  schema_ok l = true -> schema_ok r = true ->
+  names_disjoint (map c_name (w_channels l)) (map c_name (w_channels r)) ->
+  names_disjoint (map o_name (w_observations l)) (map o_name (w_observations r)) ->
+  names_disjoint (map me_name (w_measurements l)) (map me_name (w_measurements r)) ->
+  combine l r "none" false v = Ok (ws_app l r).
+Proof. exact combine_none_disjoint. Qed.
+
+Theorem C16_combine_refuses_iff : forall l r js merge v,
+  wf_names l -> wf_names r -> schema_ok l = true -> schema_ok r = true ->
+  (refuses (combine l r js merge v) <->
+   match join_of_string js with None => True | Some j => refusal_spec j merge l r end).
+Proof. exact combine_refuses_iff. Qed.
+
+Theorem C16_combine_result_valid : forall j l r merge w, schema_ok l = true -> schema_ok r = true ->
+  combine_pre j l r merge = Ok w -> schema_ok w = true.
+Proof. exact combine_pre_schema_ok. Qed.
+
+Theorem C16_combine_main_likelihood_adds :
+  forall (V : Type) (zero one : V) (add mul : V -> V -> V),
+  (forall a b c, add a (add b c) = add (add a b) c) -> (forall a, add zero a = a) ->
+  forall (ofQ : Qc -> V) (factor delta : modifier -> nat -> V) (logdens : Qc -> V -> V) l r v w,
+  combine l r "none" false v = Ok w -> obs_complete l -> obs_complete r ->
+  main_ll V zero one add mul ofQ factor delta logdens w =
+  add (main_ll V zero one add mul ofQ factor delta logdens l) (main_ll V zero one add mul ofQ factor delta logdens r).
+Proof. exact combine_main_likelihood_adds. Qed.
+
+Theorem C16_combine_constraints_once :
+  forall (V : Type) (zero : V) (add : V -> V -> V),
+  (forall a b, add a b = add b a) -> (forall a b c, add a (add b c) = add (add a b) c) -> (forall a, add zero a = a) ->
+  forall (factor delta : modifier -> nat -> V) (cterm : string -> V) l r v w,
+  combine l r "none" false v = Ok w ->
+  NoDup (constrained_names w) /\
+  (forall n, In n (constrained_names w) <-> In n (constrained_names l) \/ In n (constrained_names r)) /\
+  add (constraint_ll V zero add cterm w) (sum V zero add cterm (shared_constrained l r)) =
+  add (constraint_ll V zero add cterm l) (constraint_ll V zero add cterm r).
+Proof. exact combine_constraints_once. Qed.
+
+Theorem C16_prune_exact : forall w mods types samples chans meas w',
+  prune prune_types_via_dict w mods types samples chans meas = Ok w' -> w' = prune_ref w mods types samples chans meas.
+Proof. exact (prune_exact prune_types_via_dict). Qed.
+
+Theorem C16_prune_removes_named : forall w mods types samples chans meas,
+  let w' := prune_ref w mods types samples chans meas in
+  (forall c, In c (w_channels w') -> ~ In (c_name c) chans) /\
+  (forall o, In o (w_observations w') -> ~ In (o_name o) chans) /\
+  (forall s, In s (all_samples w') -> ~ In (s_name s) samples) /\
+  (forall m, In m (all_mods w') -> ~ In (m_name m) mods /\ ~ In (m_type m) types) /\
+  (forall m, In m (w_measurements w') -> ~ In (me_name m) meas /\ forall p, In p (me_params m) -> ~ In (p_name p) mods).
+Proof. exact prune_ref_removed. Qed.
+
+Theorem C16_prune_preserves_rest : forall w mods types samples chans meas,
+  let w' := prune_ref w mods types samples chans meas in
+  (forall c, In c (w_channels w) -> channel_untouched mods types samples chans c -> In c (w_channels w')) /\
+  (forall o, In o (w_observations w) -> ~ In (o_name o) chans -> In o (w_observations w')) /\
+  (forall m, In m (w_measurements w) -> ~ In (me_name m) meas -> (forall p, In p (me_params m) -> ~ In (p_name p) mods) -> In m (w_measurements w')) /\
+  (forall c, In c (w_channels w) -> ~ In (c_name c) chans -> exists c', In c' (w_channels w') /\ c_name c' = c_name c) /\
+  map c_name (w_channels w') = filter (fun n => negb (mem_str n chans)) (map c_name (w_channels w)) /\
+  map o_name (w_observations w') = filter (fun n => negb (mem_str n chans)) (map o_name (w_observations w)) /\
+  map me_name (w_measurements w') = filter (fun n => negb (mem_str n meas)) (map me_name (w_measurements w)) /\
+  (forall m, In m (w_measurements w') -> exists m0, In m0 (w_measurements w) /\ me_name m = me_name m0 /\ me_poi m = me_poi m0) /\
+  w_version w' = w_version w.
+Proof. exact prune_preserves_rest. Qed.
+
+Theorem C16_prune_accepts_iff : forall w mods types samples chans meas,
+  (exists w', prune prune_types_via_dict w mods types samples chans meas = Ok w') <->
+  (all_names_known w mods types samples chans meas /\ schema_ok (prune_ref w mods types samples chans meas) = true).
+Proof. rewrite C16_types_check. exact prune_accepts_iff. Qed.
+
+Theorem C16_rename_inverse : forall w rm rs rc rme w',
+  schema_ok w = true ->
+  rename_injective rm -> rename_injective rs -> rename_injective rc -> rename_injective rme -> rename_fresh w rm rs rc rme ->
+  rename w rm rs rc rme = Ok w' ->
+  rename w' (inv rm) (inv rs) (inv rc) (inv rme) = Ok w.
+Proof. exact rename_inverse. Qed.
+
+Theorem C16_sorted_idempotent : forall w w1, sorted w = Ok w1 -> sorted w1 = Ok w1.
+Proof. exact sorted_idempotent. Qed.
+
+Theorem C16_sorted_total : forall w, schema_ok w = true -> sorted w = Ok (sorted_spec w) /\ schema_ok (sorted_spec w) = true.
+Proof. exact sorted_total. Qed.
+
+Theorem C16_sorted_canonical : forall w w', ws_rel w w' -> sorted w = sorted w'.
+Proof. exact sorted_canonical. Qed.
+
+Theorem C16_sorted_preserves_likelihood :
+  forall (V : Type) (zero one : V) (add mul : V -> V -> V),
+  (forall a b, add a b = add b a) -> (forall a b c, add a (add b c) = add (add a b) c) ->
+  (forall a b, mul a b = mul b a) -> (forall a b c, mul a (mul b c) = mul (mul a b) c) ->
+  forall (ofQ : Qc -> V) (factor delta : modifier -> nat -> V) (logdens : Qc -> V -> V) (cterm : string -> V) w w',
+  sorted w = Ok w' -> NoDup (map o_name (w_observations w)) ->
+  main_ll V zero one add mul ofQ factor delta logdens w' = main_ll V zero one add mul ofQ factor delta logdens w /\
+  constraint_ll V zero add cterm w' = constraint_ll V zero add cterm w.
+Proof. exact sorted_preserves_likelihood. Qed.
+
+Print Assumptions C16_combine_none_disjoint.
+Print Assumptions C16_combine_refuses_iff.
+Print Assumptions C16_combine_result_valid.
+Print Assumptions C16_combine_main_likelihood_adds.
+Print Assumptions C16_combine_constraints_once.
+Print Assumptions C16_prune_exact.
+Print Assumptions C16_prune_removes_named.
+Print Assumptions C16_prune_preserves_rest.
+Print Assumptions C16_prune_accepts_iff.
+Print Assumptions C16_rename_inverse.
+Print Assumptions C16_sorted_idempotent.
+Print Assumptions C16_sorted_total.
+Print Assumptions C16_sorted_canonical.
+Print Assumptions C16_sorted_preserves_likelihood.
